@@ -185,6 +185,25 @@ impl G {
         }
         envs.push(e);
       }
+      // several new inscriptions on one sat of this transaction: an earlier envelope points at a sat on which a
+      // later envelope lands too (by its own pointer, or because the sat is the first one of its input)
+      if envs.len() >= 2 && total_out > 0 && self.rng.gen_bool(0.3) {
+        let starts: Vec<u64> = (0..ins.len()).map(|k| ins[..k].iter().map(|u| u.v).sum()).collect();
+        let k = self.rng.gen_range(0..ins.len());
+        let (target, by_input) = if k > 0 && starts[k] < total_out && self.rng.gen_bool(0.6) {
+          (starts[k], true)
+        } else {
+          (self.rng.gen_range(0..total_out), false)
+        };
+        envs[0].input = 0;
+        envs[0].pointer = Some(target);
+        if by_input {
+          envs[1].input = k;
+          envs[1].pointer = None;
+        } else {
+          envs[1].pointer = Some(target);
+        }
+      }
       envs.sort_by_key(|e| e.input);
       for e in &envs {
         self.env_labels.push(e.label.clone());
@@ -1070,6 +1089,24 @@ pub fn crash_case(seed: u64, tag: &str, p: &ProtoCfg, point: &str, occ: u64, pre
   steps.push(Step::State);
   steps.push(Step::Fresh { limit: None });
   scenario(format!("{tag}-crash-{point}-{occ}-f{fork_depth}-seed{seed}"), p, steps)
+}
+
+/// C13: the updating process is killed `ms` milliseconds after it started (no hook involved), `rounds` times in a
+/// row while it works through a long backlog with frequent commits; then the index catches up and is compared
+/// with a from-scratch index.
+pub fn kill_case(seed: u64, tag: &str, p: &ProtoCfg, pre: usize, more: usize, delays: &[u64]) -> Scenario {
+  let mut cg = ChainGen::new(seed, tag, light_cfg());
+  let mut steps = Vec::new();
+  cg.mine(&mut steps, pre);
+  steps.push(Step::Update);
+  cg.mine(&mut steps, more);
+  for ms in delays {
+    steps.push(Step::Crash { point: "kill".to_string(), occ: *ms });
+  }
+  steps.push(Step::Update);
+  steps.push(Step::State);
+  steps.push(Step::Fresh { limit: None });
+  scenario(format!("{tag}-kill-p{pre}m{more}-seed{seed}"), p, steps)
 }
 
 /// C13: a crashed run and its uninterrupted control over the same history, which continues after the
